@@ -5,6 +5,7 @@ from pyvc.contract import chain_hooks
 from contracts import c05_fva_driver as CD
 from contracts import c14_fva_pool as CP
 from contracts import c14_essential as CE
+from contracts import c16_samplers as CX
 from props._generic import run_property, replay_with_driver
 
 LEVEL = "other"
@@ -15,7 +16,8 @@ def run(rep):
     run_property(rep, KEYS, hooks=chain_hooks(C5.HOOKS, C6.HOOKS_G, C6.HOOKS_GG),
                  more=[(["deletion._init_worker", "_reaction_deletion_worker", "_gene_deletion_worker"], C6.HOOKS_W),
                        (["_init_worker"], CD.HOOKS), (["flux_variability_analysis@pool"], CP.HOOKS),
-                       (["find_essential_genes", "find_essential_reactions"], CE.HOOKS)], lemmas=CP.lemmas, explanation=(
+                       (["find_essential_genes", "find_essential_reactions"], CE.HOOKS),
+                       (["mp_init", "_sample_chain"], CX.HOOKS_C), (["OptGPSampler.sample"], CX.HOOKS_O)], lemmas=CP.lemmas, explanation=(
         "Contracts cannot speak about schedules; they remove the need to: what is proved is that each task is a function of (worker "
         "state at task entry, item) and hands the worker back in the state it found it. _fva_step: the LP is solved with exactly the "
         "requested reaction's +forward -reverse added, the returned pair is (requested id, solver value), and every objective "
@@ -52,9 +54,20 @@ def run(rep):
         "{id}, ids known to the model) - exactly the entities with a row whose growth is NaN or below the threshold (both inclusions). "
         "The Pool itself, OS scheduling and pickling are outside any sequential contract "
         "language: bounded driver (processes 1-8, permutations, chunk sizes, seeded per-task delays injected into the workers, "
-        "single-item calls, exact oracle; reproducibility of parallel sampling)."),
+        "single-item calls, exact oracle; reproducibility of parallel sampling). "
+        "Parallel sampling (contracts/c16_samplers.py, opaque array algebra + exact integers; n >= 0, processes >= 1, thinning >= 1, nproj >= 1): "
+        "optgp._sample_chain((n, idx)) reseeds np.random exactly once with (seed + idx) % (2**31 - 1) BEFORE any draw, reads only sampler "
+        "fields and writes none but `retries` (centre and n_samples are updated locally), returns (retries, the n x . array whose row r was "
+        "written when the step counter was 1 + (r+1)*thinning with a point that passed the guard of step() or is a _random_point) - so a "
+        "chain is a function of (sampler fields, n, idx, the generator seeded with seed + idx); OptGPSampler.sample against the ASSUMED "
+        "ordered-map contract Pool.map: one pool (processes, mp_init, (self,)), one map(_sample_chain, [(ceil(n/processes), j) for j < "
+        "processes]) - the task precondition obliged for an arbitrary j in the worker state mp_init's proved contract leaves -, chains "
+        "stacked in index order, n <= rows returned = ceil(n/processes)*processes < n + processes, n_samples / centre / retries updated "
+        "with the numbers ACTUALLY generated; processes = 1: mp_init(self) + _sample_chain((n, 0)) in process."),
         trusted=["multiprocessing.Pool: each task runs once in a worker initialised on a private copy; imap_unordered yields every "
-                 "result once in an arbitrary order (assumed contract Pool.imap_unordered, ghost permutation); map is ordered",
+                 "result once in an arbitrary order (assumed contract Pool.imap_unordered, ghost permutation); map is ordered "
+                 "(assumed contract Pool.map)", "float division n / processes and np.ceil are exact (operands below 2**53)",
+                 "np.random draws are a deterministic function of the last seed and the draw sequence",
                  "fork semantics (a worker's copy is isomorphic to the parent's model at pool creation)",
                  "C03 (undo actions restore the model)", "the same LP has the same optimal value (hypothesis of the result lemmas; C04)",
                  "pandas DataFrame.at[key, column] = value writes exactly that cell (recorded per column)",
